@@ -1246,7 +1246,7 @@ class Frame:
             self.ev(q, "iter", target=it, line=st.lineno, text=ast.unparse(st.iter)[:80])
             if isinstance(it, Seq) and not it.items:
                 elems = []                      # a known-empty iterable: the body never runs
-            is_whole = len(elems) == 1 and not early and not isinstance(it, Seq) and not getattr(it, "partial", False)
+            is_whole = len(elems) == 1 and not early and (not isinstance(it, Seq) or getattr(it, "from_whole", False)) and not getattr(it, "partial", False)
             if is_whole:
                 self.ctx.whole += 1
             exact = isinstance(it, Seq) and not any(isinstance(x, Sym) and x.head == "star" for x in it.items)
@@ -1271,7 +1271,14 @@ class Frame:
                     natural.append(r.fork())  # the loop ends before this iteration
                 body_in = r.fork()
                 self.assign(st.target, el, body_in, st)
-                for b in self.block(st.body, [body_in]):
+                if not hasattr(self, "_loop_nc"):
+                    self._loop_nc = []
+                self._loop_nc.append(len(body_in.conds))
+                try:
+                    body_out = self.block(st.body, [body_in])
+                finally:
+                    self._loop_nc.pop()
+                for b in body_out:
                     if b.status == "break":
                         b.status = "live"
                         out.append(b)  # ``else`` is skipped after a break
@@ -1901,23 +1908,33 @@ class Frame:
                 saved = dict(p.env)
                 self.ev(p, "iter", target=it, line=getattr(g.iter, "lineno", 0), text=ast.unparse(g.iter)[:80])
                 cur = [(p, [])]
-                for item in it.items:
-                    nxt = []
-                    for q, acc in cur:
-                        if q.status != "live":
-                            nxt.append((q, acc))
-                            continue
-                        self.assign(g.target, item, q, e)
-                        for q2, t in self.expr(elts[0], q):
-                            nxt.append((q2, acc + [t]))
-                    cur = nxt
+                fw = bool(getattr(it, "from_whole", False))     # one entry per element of a collection: walking it visits every element
+                if fw:
+                    self.ctx.whole += 1
+                try:
+                    for item in it.items:
+                        nxt = []
+                        for q, acc in cur:
+                            if q.status != "live":
+                                nxt.append((q, acc))
+                                continue
+                            self.assign(g.target, item, q, e)
+                            for q2, t in self.expr(elts[0], q):
+                                nxt.append((q2, acc + [t]))
+                        cur = nxt
+                finally:
+                    if fw:
+                        self.ctx.whole -= 1
                 out = []
                 for q, acc in cur:
                     for k in list(q.env):
                         if k not in saved:
                             del q.env[k]
                     q.env.update(saved)
-                    out.append((q, Seq(acc)))
+                    rs = Seq(acc)
+                    if fw:
+                        rs.from_whole = True
+                    out.append((q, rs))
                 return out
         saved_env = dict(p.env)
         self.in_comp += 1
@@ -1948,7 +1965,7 @@ class Frame:
                     self.ev(q2, "iter", target=it, line=getattr(g.iter, "lineno", 0), text=ast.unparse(g.iter)[:80])
                     if idx == 0 and len(e.generators) == 1:
                         src_of_comp.append(it)
-                    comp_whole = not isinstance(it, Seq) and not getattr(it, "partial", False)
+                    comp_whole = (not isinstance(it, Seq) or getattr(it, "from_whole", False)) and not getattr(it, "partial", False)
                     pre_ = getattr(it, "prefix", None)
                     comp_sofar = getattr(it, "partial", False) and pre_ is not None and pre_.key() == "binop:Add(position,Const(1))"
                     if comp_whole:
@@ -2072,6 +2089,14 @@ class Frame:
             out.append((q, pos, kw))
         return out
 
+    def _mark_from_whole(self, seq, base, q) -> None:
+        """A list filled, unconditionally, inside an iteration that visits every element of a collection holds one entry per element:
+        walking it afterwards visits every element as well."""
+        nc = getattr(self, "_loop_nc", None)
+        uncond = self.ctx.whole > 0 and bool(nc) and len(q.conds) == nc[-1]
+        prev = getattr(base, "from_whole", True) if isinstance(base, Seq) and base.items else True
+        seq.from_whole = bool(uncond and prev)
+
     def e_Call(self, e: ast.Call, p: Path):
         f = e.func
         # super().__init__(...) and friends: evaluate arguments only
@@ -2094,8 +2119,34 @@ class Frame:
                         else:
                             items.append(t)
                         q.env[f.value.id] = Seq(items)
+                        self._mark_from_whole(q.env[f.value.id], base, q)
+                        # (paths are told apart by their events: a path that accumulated something differs from one that did not)
+                        self.ev(q, "acc", text=f"{f.value.id}.{f.attr}", target=t, line=e.lineno)
                     out.append((q, Const(None)))
                 return out
+        if isinstance(f, ast.Attribute) and f.attr == "setdefault" and isinstance(f.value, ast.Name) and len(e.args) == 2 and not e.keywords \
+                and isinstance(e.args[0], ast.Call) and isinstance(e.args[0].func, ast.Name) and e.args[0].func.id == "id" and len(e.args[0].args) == 1 \
+                and ast.dump(e.args[0].args[0]) == ast.dump(e.args[1]):
+            # ``seen.setdefault(id(x), x)`` on a dictionary of the function's own: the objects seen so far, each once (told apart by identity) —
+            # as a collection of values it holds what a list filled with ``append(x)`` holds, without the repeats of the very same object
+            cur = p.env.get(f.value.id)
+            if (isinstance(cur, Sym) and cur.head == "dict{}" and not cur.args) or (isinstance(cur, Seq) and getattr(cur, "by_identity", False)):
+                for q, t in self.expr(e.args[1], p):
+                    if q.status == "live":
+                        base = q.env.get(f.value.id)
+                        items = list(base.items) if isinstance(base, Seq) else []
+                        items.append(t)
+                        ns = Seq(items)
+                        ns.by_identity = True
+                        q.env[f.value.id] = ns
+                        self._mark_from_whole(ns, base, q)
+                        self.ev(q, "acc", text=f"{f.value.id}.setdefault", target=t, line=e.lineno)
+                    out.append((q, t))
+                return out
+        if isinstance(f, ast.Attribute) and f.attr == "values" and isinstance(f.value, ast.Name) and not e.args and not e.keywords:
+            cur = p.env.get(f.value.id)
+            if isinstance(cur, Seq) and getattr(cur, "by_identity", False):
+                return [(p, cur)]
         if isinstance(f, ast.Attribute) and f.attr in ("pop", "popleft") and isinstance(f.value, ast.Name) and not e.keywords \
                 and (not e.args or (len(e.args) == 1 and isinstance(e.args[0], ast.Constant) and e.args[0].value in (0, -1))):
             cur = p.env.get(f.value.id)
